@@ -22,8 +22,11 @@ func C18_writer_reset() {
 	vAssume(w.fseq >= 0)
 	w.dirty = vBool("dirty")
 	w.noFlush = vBool("noflush")
-	if vChoose("ext", 2) == 1 {
-		w.SetExtensions(vExt{})
+	// extensions attached from a slice the caller keeps (SetExtensions(exts...) stores that slice)
+	exts := []SendExtension{vExt{}}
+	attached := vChoose("ext", 2) == 1
+	if attached {
+		w.SetExtensions(exts...)
 	}
 	if vChoose("err", 2) == 1 {
 		w.err = vErrDst
@@ -45,6 +48,7 @@ func C18_writer_reset() {
 		vAssert(same, "reset.counters_as_new")
 		vAssert(vAnd(w.op == fresh.op, w.state == fresh.state), "reset.config_as_new")
 		vAssert(len(w.extensions) == 0, "reset.extensions_dropped")
+		vAssert(exts[0] != nil, "reset.callers_extension_slice_untouched")
 		vAssert(vAnd(len(w.buf) == len(fresh.buf), len(w.raw) == len(fresh.raw)), "reset.buffer_as_new")
 		vAssert(vAnd(w.Size() == fresh.Size(), w.Available() == fresh.Available()), "reset.size_as_new")
 		vAssert(w.err == nil, "reset.sticky_error_cleared")
